@@ -205,10 +205,11 @@ def witnesses():
     """Known-finding witnesses (corpus first), each on both entry points."""
     w = []
     for e in vlib.load_known_findings("C08"):
-        for entry in ("cli", "build"):
-            c = dict(e["witness"])
-            c["entry"] = entry
-            w.append(c)
+        for wit in e.get("witnesses", [e["witness"]]):
+            for entry in ("cli", "build"):
+                c = dict(wit)
+                c["entry"] = entry
+                w.append(c)
     return w
 
 
@@ -224,7 +225,7 @@ def regressions(pid):
 # one representative per edit class of the property text (+ the unhashed / noise / deletion classes): the alphabet of
 # the exhaustive length-2 enumeration of the quick tier; the full alphabet (several representatives per class) is used
 # at length 1, in the sampled pairs and, exhaustively, in the thorough tier
-ALPHA = CORE + ["event_add", "visualize", "noise", "map_target", "include_private", "cmd_rename_all", "delete:.typecache",
+ALPHA = CORE + ["cmd_swap", "cmd_move", "unused_struct", "event_add", "visualize", "noise", "map_target", "include_private", "cmd_rename_all", "delete:.typecache",
                 "delete:commands.ts"]
 
 
@@ -243,7 +244,7 @@ def history_cases(tier, rng):
         for _ in range(60 if tier == "quick" else 600):
             cases.append({"entry": entry, "base": "zod", "ops": [rng.choice(ops), rng.choice(ops)]})
         if tier == "quick":
-            for _ in range(200):
+            for _ in range(120):
                 cases.append({"entry": entry, "base": "none", "ops": [rng.choice(ops), rng.choice(ops)]})
         # every sequence of length 3 over hashed edits
         for seq in itertools.product(SAFE if tier == "thorough" else SAFE[:5], repeat=3):
@@ -295,8 +296,11 @@ def event_histories(tier, rng):
         for n in (1, 2):
             for seq in itertools.product(EV_OPS + EV_MORE, repeat=n):
                 cases.append({"entry": entry, "base": "none", "ops": list(seq)})
-        for seq in itertools.product(EV_OPS, repeat=3):
-            cases.append({"entry": entry, "base": "none", "ops": list(seq)})
+        # length 3 exhaustively on the CLI path (quick); both paths in the thorough tier (the event part of the record is
+        # shared code, the build path keeps lengths <= 2 and the sampled longer ones)
+        if entry == "cli" or tier == "thorough":
+            for seq in itertools.product(EV_OPS, repeat=3):
+                cases.append({"entry": entry, "base": "none", "ops": list(seq)})
         if tier == "thorough":
             for seq in itertools.product(EV_OPS, repeat=4):
                 cases.append({"entry": entry, "base": "zod", "ops": list(seq)})
